@@ -473,8 +473,8 @@ Definition command_params_ok (e : entity) : bool :=
                                                 (path_join (command_base e c) (md_path m)))
                             (c_methods c)) (e_commands e).
 
-(* the compile outcome as far as the expansion decides it *)
-Definition compile (e : entity) : outcome (list component) :=
+(* the conversion outcome (j5convert) as far as the expansion decides it *)
+Definition convert (e : entity) : outcome (list component) :=
   match expand e with
   | Ok cs => if closed cs then
                if fields_ok e then
@@ -487,14 +487,68 @@ Definition compile (e : entity) : outcome (list component) :=
 
 (* a source file with several entity declarations of one package: each entity is expanded in
    turn into the same three files; any error fails the file *)
-Fixpoint compile_all (es : list entity) : outcome (list component) :=
+Fixpoint convert_all (es : list entity) : outcome (list component) :=
   match es with
   | [] => Ok []
   | e :: r =>
-      match compile e with
-      | Ok a => match compile_all r with Ok b => Ok (a ++ b) | o => o end
+      match convert e with
+      | Ok a => match convert_all r with Ok b => Ok (a ++ b) | o => o end
       | Err c => Err c
       | Panic p => Panic p
       | OutOfFuel => OutOfFuel
       end
   end.
+
+(* ---- the link step (protocompile linker.Symbols.importResult): one namespace per scope ----
+   package scope of each of the three files: messages, enums, enum VALUES (C++ scoping), services;
+   message scope: fields by proto name = ToSnake(name), the proto oneof "type" of a oneof wrapper
+   with members (visitOneofNode; omitted when empty, fix e5711b2), the synthetic oneof "_<field>"
+   of a proto3-optional field (visitObjectNode), nested messages; service scope: methods.
+   A second definition of a symbol is the link error `symbol "..." already defined`.
+   (j5's link path does not run protocompile's JSON-name / enum-value camel-case validations:
+   `data a__b` + `data a_b`, `status A_B` + `status AB` compile.) *)
+Definition proto_name (f : ofield) : bytes := to_snake (f_json f).
+Definition fields_scope (is_oneof : bool) (fs : list ofield) : list bytes :=
+  map proto_name fs
+  ++ (if is_oneof then (if is_nil fs then [] else [bs "type"])
+      else map (fun f => 95 :: proto_name f) (filter f_optional fs)).
+Definition msg_scopes (m : omsg) : list (list bytes) :=
+  (fields_scope (m_oneof m) (m_fields m) ++ map fst (m_nested m))
+  :: map (fun n => fields_scope false (snd n)) (m_nested m).
+Definition file_scope (file : N) (cs : list component) : list bytes :=
+  flat_map (fun c => match c with
+    | CMsg f m => if f =? file then [m_name m] else []
+    | CEnum n vs => if file =? 0 then n :: map fst vs else []
+    | CSvc f s => if f =? file then [sv_name s] else []
+    end) cs.
+Definition inner_scopes (cs : list component) : list (list bytes) :=
+  flat_map (fun c => match c with
+    | CMsg _ m => msg_scopes m
+    | CEnum _ _ => []
+    | CSvc _ s => [map mt_name (sv_methods s)]
+    end) cs.
+Definition scopes (cs : list component) : list (list bytes) :=
+  [file_scope 0 cs; file_scope 1 cs; file_scope 2 cs] ++ inner_scopes cs.
+Definition link_ok (cs : list component) : bool := forallb nodup_bytes (scopes cs).
+
+(* the whole compile of one source file: the parser's validation of the declaration
+   (sourcedef Entity.status is `required`: an entity without a status is rejected before the
+   walker runs), conversion of every entity, then linking of the three files *)
+Definition compile_file (es : list entity) : outcome (list component) :=
+  if existsb (fun e => is_nil (e_status e)) es then Err "value is required"
+  else match convert_all es with
+       | Ok cs => if link_ok cs then Ok cs else Err "symbol already defined"
+       | o => o
+       end.
+Definition compile (e : entity) : outcome (list component) := compile_file [e].
+
+(* error classes, as the harness classifies the real compiler's message (errClass in c17.go) *)
+Definition err_class (s : string) : N :=
+  if String.eqb s "status not found in entity" then 1
+  else if String.eqb s "duplicate summary name" then 2
+  else if String.eqb s "type not found" then 3
+  else if String.eqb s "cannot be both required and optional" then 4
+  else if String.eqb s "missing field in request" then 5
+  else if String.eqb s "symbol already defined" then 6
+  else if String.eqb s "value is required" then 7
+  else 99.
